@@ -25,6 +25,8 @@ from ampform.kinematics.lorentz import (  # noqa: E402
     RotationZMatrix,
 )
 
+from ampform.sympy._array_expressions import MatrixMultiplication  # noqa: E402
+
 ETA = np.diag([1.0, -1.0, -1.0, -1.0])
 p = FourMomentumSymbol("p", shape=[])
 b, a, n = sp.symbols("b a n")
@@ -46,6 +48,22 @@ def fn(kind, cse):
             _cache[key] = sp.lambdify([p], NegativeMomentum(p).doit(), "numpy", cse=cse)
         elif kind == "boost_apply":
             _cache[key] = sp.lambdify([p], ArrayMultiplication(BoostMatrix(p), p).doit(), "numpy", cse=cse)
+        elif kind == "negneg":  # space inversion applied twice
+            _cache[key] = sp.lambdify([p], NegativeMomentum(NegativeMomentum(p)).doit(), "numpy", cse=cse)
+        elif kind == "boost_of_neg":  # boost of an expression that is itself a space-inverted momentum
+            _cache[key] = sp.lambdify([p], BoostMatrix(NegativeMomentum(p)).doit(), "numpy", cse=cse)
+        elif kind == "boost_of_negneg":
+            _cache[key] = sp.lambdify([p], BoostMatrix(NegativeMomentum(NegativeMomentum(p))).doit(), "numpy", cse=cse)
+        elif isinstance(kind, tuple) and kind[0] == "product":  # library product classes with (possibly repeated) operands
+            _, cls, pattern = kind
+            syms = {"a": a, "b": b}
+            if cls == "rotz":
+                mats = [RotationZMatrix(syms[c], n_events=n) for c in pattern]
+            elif cls == "roty":
+                mats = [RotationYMatrix(syms[c], n_events=n) for c in pattern]
+            else:
+                mats = [BoostZMatrix(syms[c], n_events=n) for c in pattern]
+            _cache[key] = sp.lambdify([a, b, n], MatrixMultiplication(*mats).doit(), "numpy", cse=cse)
         elif kind == "boost_explicit":  # the explicit symbolic matrix, entry by entry
             _cache[key] = sp.lambdify([p], list(BoostMatrix(p).as_explicit().doit()), "numpy", cse=cse)
         elif kind == "boostz_explicit":
@@ -141,6 +159,15 @@ def run_case(c):
         Linv = fn("boost", cse)(np.tile(Pneg, (batch, 1)))[0]
         if np.abs(Linv @ L - np.eye(4)).max() > 1e-8 * nrm:
             fails.append(("boost_inverse", f"|B(-p)B(p) - 1| = {np.abs(Linv @ L - np.eye(4)).max():.3g}"))
+        nn = fn("negneg", cse)(arr)[0]
+        if np.abs(nn - P).max() != 0:
+            fails.append(("double_space_inversion", f"NegativeMomentum(NegativeMomentum(p)) = {nn.tolist()} != p"))
+        Lneg = fn("boost_of_neg", cse)(arr)[0]
+        if np.abs(Lneg - Linv).max() > tol_entry:
+            fails.append(("boost_of_inverted_expression", f"|B(NegativeMomentum(p)) - B(-p)| = {np.abs(Lneg - Linv).max():.3g}"))
+        Lnn = fn("boost_of_negneg", cse)(arr)[0]
+        if np.abs(Lnn - L).max() > tol_entry:
+            fails.append(("boost_of_double_inversion", f"|B(-(-p)) - B(p)| = {np.abs(Lnn - L).max():.3g}; B(-q)B(q) != 1 for q = -p"))
         applied = fn("boost_apply", cse)(arr)[0]
         if np.abs(applied - rest).max() > 1e-9 * nrm * max(1.0, abs(P[0])):
             fails.append(("array_multiplication", f"einsum product {applied.tolist()} != matrix product {rest.tolist()}"))
@@ -164,6 +191,34 @@ def run_case(c):
         if np.abs(Lx - L).max() > 1e-9 * g:
             fails.append(("explicit_vs_code_boostz", f"|as_explicit() - generated code| = {np.abs(Lx - L).max():.3g}"))
         fails += lorentz_fails(L, "boostz")
+    elif kind == "product":
+        cls, pattern, a1, a2 = c["cls"], c["pattern"], c["a1"], c["a2"]
+        f = fn(("product", cls, pattern), cse)
+        M = f(np.full(batch, a1), np.full(batch, a2), batch)
+        if M.shape != (batch, 4, 4):
+            return [("product_shape", f"shape {M.shape}")]
+        M = M[0]
+        vals = {"a": a1, "b": a2}
+        if cls in ("roty", "rotz"):
+            ref = np.eye(4)
+            for ch in pattern:
+                ref = ref @ ref_rot(cls, vals[ch])
+            tot = ref_rot(cls, sum(vals[ch] for ch in pattern))
+            if np.abs(ref - tot).max() > 1e-11:
+                return []  # cannot happen; guards the oracle itself
+            tol = 1e-11
+        else:
+            ref = np.eye(4)
+            for ch in pattern:
+                be = vals[ch]
+                g = 1 / np.sqrt(1 - be * be)
+                B = np.eye(4)
+                B[0, 0] = B[3, 3] = g
+                B[0, 3] = B[3, 0] = -g * be
+                ref = ref @ B
+            tol = 1e-9 * max(1.0, float(np.abs(ref).max()))
+        if np.abs(M - ref).max() > tol:
+            fails.append((f"matrix_product_{cls}_{pattern}", f"MatrixMultiplication over pattern {pattern} differs from the ordered matrix product by {np.abs(M - ref).max():.3g}"))
     else:
         a1, a2 = c["a1"], c["a2"]
         f = fn(kind, cse)
@@ -211,6 +266,14 @@ def gen_cases(seed, n_cases):
             if abs(beta) >= 1:
                 continue
             cases.append({"kind": "boostz", "cse": cse, "batch": batch, "beta": float(beta)})
+        elif k == 4 and rng.random() < 0.5:
+            cls = rng.choice(["rotz", "roty", "boostz"])
+            pattern = rng.choice(["aa", "ab", "ba", "aba", "abab", "aaa", "abba"])
+            if cls == "boostz":
+                v1, v2 = rng.uniform(-0.9, 0.9), rng.uniform(-0.9, 0.9)
+            else:
+                v1, v2 = rng.uniform(-7, 7), rng.uniform(-7, 7)
+            cases.append({"kind": "product", "cls": cls, "pattern": pattern, "cse": cse, "batch": batch, "a1": v1, "a2": v2})
         else:
             cases.append({"kind": rng.choice(["roty", "rotz"]), "cse": cse, "batch": batch,
                           "a1": rng.choice([0.0, np.pi, -np.pi / 2, rng.uniform(-7, 7)]),
